@@ -25,7 +25,7 @@ ID = "C15"
 PROP_FILE = "props/C15.v"
 THEOREMS = ["C15_merge_complete", "C15_merge_perm", "C15_merge_per_file_order", "C15_merge_sorted",
             "C15_raw_sorted_stream_sorted", "C15_pairing", "C15_rank_attr", "C15_fuel_sufficient",
-            "C15_wf_files_ok"]
+            "C15_wf_files_ok", "C15_json_path_is_json"]
 ALLOWED_AXIOMS = []
 MANIFEST = {
     "text": "Proof. Coq theorems over an executable model (Ingest.v) of JsonEventTraceIngest (updated_event, FLEX rank "
@@ -693,6 +693,26 @@ def run(ctx):
     mism = [{"name": "correspondence Ingest.ingest_val vs MultifileIngest iteration",
              "case": {"origin": cases[j][0], "files": cases[j][1]}, "impl": terms[j][1][:600]} for j in bad[:5]]
     ctx._c15_mismatching = [cases[j][1] for j in bad[:20]]
+    # ---- file type by name: Ftype.ftype_val = the real detect_ftype on path names (no file is opened: every generated name
+    # holds one of the substrings the function looks for, or starts with api://)
+    from aiu_trace_analyzer.ingest.ingestion import MultifileIngest
+    probe = MultifileIngest.__new__(MultifileIngest)
+    names_of = {probe.FTYPE_JSON: "json", probe.FTYPE_PFTRACE: "pftrace", probe.FTYPE_LOG: "log", probe.FTYPE_API: "api"}
+    parts = ["run", "rank0", "aiu", "x", ".log", ".logs", ".login1", ".json", ".JSON", ".pftrace", ".bak", "/", "-", "_7", ".",
+             "json", "log", ".jsonl", ".LOG"]
+    fnames = []
+    for _ in range(ctx.pick(400, 4000)):
+        nm = "".join(r.choice(parts) for _ in range(r.randint(1, 6)))
+        if r.random() < 0.1:
+            nm = "api://" + nm
+        if any(k in nm for k in (".json", ".pftrace", ".log")) or nm.startswith("api://"):
+            fnames.append(nm)
+    fterms = [(enc.S(nm), enc.V(names_of.get(probe.detect_ftype(nm), "other"))) for nm in fnames]
+    bad_f, _, secs_f = coqrun.run_cases("C15f", "From AiuModel Require Import Ftype.", "string", "ftype_val", fterms)
+    mism += [{"name": "correspondence Ftype.ftype_val vs detect_ftype", "case": {"name": fnames[j]}, "impl": fterms[j][1]}
+             for j in bad_f[:5]]
+    dist["ftype_names"] = len(fnames)
+    dist["ftype_json_with_other_extension_inside"] = sum(1 for nm in fnames if ".json" in nm and (".log" in nm or ".pftrace" in nm))
     return {
         "evaluations": len(cases), "distinct_nontrivial": nontriv,
         "rule": "corpus + all sets of <= 3 files x <= " + str(ctx.pick(2, 3)) + " X events with ts on the grid "
@@ -706,7 +726,9 @@ def run(ctx):
                     if j < len(cases)],
         "mismatches": mism, "oracle_failures": oracle_failures,
         "ties": [{"name": "Ingest.ingest_val = real MultifileIngest iteration (events, counters, rank_pid | error class)",
-                  "cases": len(cases), "mismatching": len(bad), "coq_seconds": round(secs, 1)}],
+                  "cases": len(cases), "mismatching": len(bad), "coq_seconds": round(secs, 1)},
+                 {"name": "Ftype.ftype_val = real detect_ftype on path names", "cases": len(fnames),
+                  "mismatching": len(bad_f), "coq_seconds": round(secs_f, 1)}],
         "distribution": dist, "exhaustive": True,
     }
 
